@@ -17,6 +17,7 @@ def streams(run, info, flags_list):
     for flags in flags_list:
         ins = list(corpus)
         ins += lexh.gen_exhaustive(info, 2 if tier_q else 3) if flags in (7, 0) or not tier_q else lexh.gen_exhaustive(info, 1)
+        ins += lexh.gen_brackets(run.rng, 300 if tier_q else 6000, 6 if tier_q else 8)
         ins += lexh.gen_random(info, run.rng, 1500 if tier_q else 60000)
         out.append((flags, ins))
     return out
@@ -32,7 +33,7 @@ def run(run):
         all_dis += dis
         all_of += of
     run.cov["rule"] = ("inputs: saved corpus, then all strings over one representative per generated character class up to "
-                       "length 2 (quick) / 3 (thorough), then random strings (raw class soup, fragment soup, well-formed token "
+                       "length 2 (quick) / 3 (thorough), then every string over ( ) [ ] up to length 6 (quick) / 8 (thorough) plus balanced two-kind bracket words with swapped / re-kinded closers (lexh.gen_brackets), then random strings (raw class soup, fragment soup, well-formed token "
                        "sequences) of length <= 68; per flag setting. distinct_nontrivial = distinct inputs for which the "
                        "implementation returns at least two top-level tokens.")
     lexh.decide(run, proofs_ok, all_dis, all_of, oracle=lexh.c04_oracle, oracle_name="lexh.c04_oracle (partition of preproc(text) by the returned token tree)",
